@@ -62,6 +62,8 @@ class Mode:
 
     def cast(self, arr, i=0):
         a = np.array(arr)
+        if np.iscomplexobj(a) and self.dtype != "complex" and not np.any(a.imag):
+            a = a.real      # a real generator of a complex representation is handed over as a real array
         if self.dtype == "int" or (self.dtype == "mixed" and i > 0):
             if np.iscomplexobj(a):
                 return a
